@@ -80,6 +80,35 @@ def basis_row(b, t, d=0, right=True, tol=F(1, 10 ** 10)):
     return row
 
 
+def basis_row_mag(b, t, d=0, right=True, tol=F(1, 10 ** 10)):
+    """Magnitude of the terms that are summed into the row of `basis_row` (sum of |dB| over the
+    wrapped images, maximum over the columns): the float kernel cannot be more accurate than a few ulp
+    of THIS number when the images cancel (high derivatives on tiny periodic bases)."""
+    p, k = b['order'], b['periodic']
+    tau = frs(b['knots'])
+    t = fr(t)
+    n_all = len(tau) - p
+    n = n_all - (k + 1)
+    start, end = tau[p - 1], tau[n_all]
+    for x in tau:
+        if abs(x - t) < tol:
+            t = x
+            break
+    if k >= 0:
+        if t < start or t > end:
+            t = (t - start) % (end - start) + start
+        if t == start and not right:
+            t = end
+    if t == end:
+        right = False
+    if t < start or t > end or (t == start and not right) or d >= p:
+        return 0.0
+    row = [F(0)] * n
+    for i in range(n_all):
+        row[i % n] += abs(dB(tau, p - 1, i, d, t, right))
+    return float(max(row)) if row else 0.0
+
+
 def obj_arrays(o):
     """(list of basis specs, numpy object array of Fractions with shape n1..nd x ncomp)."""
     cps = np.array(o['cps'], dtype=float)
